@@ -344,6 +344,62 @@ def std_model(m, path, args, t):
                     raise Unknown('map with an unknown function value')
                 out.append(r)
             return ('it', out, 'map')
+    mm = re.search(r'Iterator>?::(find|position|any|all|find_map|filter|filter_map)$', path)
+    if mm and len(args) == 2 and not re.search(r'str::<impl str>', path):
+        items = as_items(m, args[0])
+        if items is not None:
+            how = mm.group(1)
+
+            def truth(v):
+                v = m.deref_value(v)
+                if isinstance(v, int) and v in (0, 1):
+                    return bool(v)
+                raise Unknown('%s: the predicate gives %r' % (how, v))
+
+            def call(x):
+                r = m.apply_fn(args[1], [x])
+                if r is None:
+                    raise Unknown('%s with an unknown function value' % how)
+                return r
+            if how in ('filter', 'filter_map'):
+                out = []
+                for x in items:
+                    r = call(x)
+                    if how == 'filter':
+                        if truth(r):
+                            out.append(x)
+                    else:
+                        rv = m.deref_value(r)
+                        if not (isinstance(rv, dict) and '__discr__' in rv):
+                            raise Unknown('filter_map step gives %r' % (rv,))
+                        if rv['__discr__'] == 1:
+                            out.append(rv['0'])
+                return ('it', out, how)
+            for i, x in enumerate(items):
+                r = call(x)
+                if how == 'find_map':
+                    rv = m.deref_value(r)
+                    if not (isinstance(rv, dict) and '__discr__' in rv):
+                        raise Unknown('find_map step gives %r' % (rv,))
+                    if rv['__discr__'] == 1:
+                        write_back(m, args[0], ('it', items[i + 1:], 'rest'))
+                        return rv
+                    continue
+                t_ = truth(r)
+                if how == 'find' and t_:
+                    write_back(m, args[0], ('it', items[i + 1:], 'rest'))
+                    return some(m, x)
+                if how == 'position' and t_:
+                    write_back(m, args[0], ('it', items[i + 1:], 'rest'))
+                    return some(m, i)
+                if how == 'any' and t_:
+                    return 1
+                if how == 'all' and not t_:
+                    return 0
+            if how in ('find', 'position', 'find_map'):
+                write_back(m, args[0], ('it', [], 'rest'))
+                return none(m)
+            return 0 if how == 'any' else 1
     mm = re.search(r'Iterator>?::(try_fold|fold)$', path)
     if mm and len(args) == 3:
         items = as_items(m, args[0])
